@@ -660,24 +660,35 @@ fn run_cid(o: &Opts) {
             let limit = rng.range(2, 9);
             c.op(&format!("rinit {}", limit), "hist");
             let mut next = 0u64; // one past the largest sequence number delivered
-            for s in 0..rng.below(limit) { let o = c.op(&format!("newcid {} 0", s), "hist"); if o.starts_with("ok") { next = s + 1; } }
+            // the generator's own books (RFC 9000 5.1.1): ids received and the largest retire_prior_to seen
+            let mut received: std::collections::BTreeSet<u64> = Default::default();
+            let mut max_rpt = 0u64;
+            for s in 0..rng.below(limit) { let o = c.op(&format!("newcid {} 0", s), "hist"); if o.starts_with("ok") { next = s + 1; received.insert(s); } }
             for _ in 0..(1 + rng.below(2)) {
                 if c.dead { break; }
-                let seq = match rng.below(12) { 0 => next, 1 => next + 1, 2 => next + limit, 3 => next + 4095, 4 => next + 4096, 5 => next + 4097, 6 => next + 4098, 7 => 1 << 25, _ => boundary(&mut rng, next) }.min((1 << 62) - 1);
-                let rpt = match rng.below(6) { 0 => 0, 1 => seq, 2 => seq.saturating_sub(1), 3 => seq.saturating_sub(limit), 4 => seq.saturating_sub(limit + 1), _ => rng.below(seq + 1) };
+                let seq = match rng.below(14) { 0 => next, 1 => next + 1, 2 => next + limit, 3 => next + 4095, 4 => next + 4096, 5 => next + 4097, 6 => next + 4098, 7 => 1 << 25, 8 => next + rng.below(limit + 2), 9 => next + 2 + rng.below(4000), _ => boundary(&mut rng, next) }.min((1 << 62) - 1);
+                let rpt = match rng.below(7) { 0 => 0, 1 => seq, 2 => seq.saturating_sub(1), 3 => seq.saturating_sub(limit), 4 => seq.saturating_sub(limit + 1), 5 => seq.saturating_sub(limit.saturating_sub(1)), _ => rng.below(seq + 1) };
                 let far = seq.saturating_sub(next);
-                let class = format!("newcid:{}", if seq - rpt > limit { "over-limit" } else if far > 4096.max(limit) { if far > 1 << 20 { "far-ahead-huge" } else { "far-ahead" } } else { "near" });
+                // active ids after the frame, if it were processed: received or this one, not below the retire-prior-to mark
+                let mark = max_rpt.max(rpt);
+                let would_active = received.iter().filter(|x| **x >= mark && **x != seq).count() as u64 + (seq >= mark) as u64;
+                let old = seq < max_rpt;
+                let far_ahead = far > 4096.max(limit);
+                let class = format!("newcid:{}", if old { "below-retire-mark" } else if far_ahead { if far > 1 << 20 { "far-ahead-huge" } else { "far-ahead" } } else if would_active > limit { "over-limit" } else if seq - rpt > limit { "within-limit-wide-fields" } else { "within-limit" });
                 if c.struck(&class) { c.sink.branch(&format!("skipped-after-3-strikes:{}", class)); continue; }
                 c.sink.branch(&class);
                 let op = format!("newcid {} {}", seq, rpt);
                 let obs = c.op(&op, &class);
-                if seq - rpt > limit && !obs.starts_with("err ConnectionIdLimit") {
-                    c.sink.monitor_fail("cid_limit_not_connection_id_limit", &format!("`{}` with active_connection_id_limit {} (RFC 9000 5.1.1: CONNECTION_ID_LIMIT_ERROR), got `{}`", op, limit, obs));
+                if !old && !far_ahead && would_active > limit && !obs.starts_with("err ConnectionIdLimit") {
+                    c.sink.monitor_fail("cid_limit_not_connection_id_limit", &format!("`{}` would leave {} active connection ids with active_connection_id_limit {} (RFC 9000 5.1.1: CONNECTION_ID_LIMIT_ERROR), got `{}`", op, would_active, limit, obs));
+                }
+                if !old && !far_ahead && would_active <= limit && !obs.starts_with("ok") {
+                    c.sink.monitor_fail("legal_issue_rejected", &format!("`{}` leaves {} active connection ids, limit {}, {} numbers ahead: must be accepted, got `{}`", op, would_active, limit, far, obs));
                 }
                 if obs.starts_with("err") && !obs.starts_with("err ConnectionIdLimit") {
                     c.sink.monitor_fail("newcid_wrong_error", &format!("`{}` got `{}`", op, obs));
                 }
-                if obs.starts_with("ok") { next = next.max(seq + 1); c.sink.nontrivial(); }
+                if obs.starts_with("ok") { next = next.max(seq + 1); received.insert(seq); max_rpt = max_rpt.max(rpt); c.sink.nontrivial(); }
                 if obs.starts_with("err") { break; }
             }
         } else {
@@ -715,7 +726,7 @@ fn run_cid(o: &Opts) {
     let restarts = c.pool.restarts;
     c.pool.kill();
     sink.note("worker_restarts", serde_json::json!(restarts));
-    sink.finish(&o.stats, "C04c: (a) ArcRemoteCids with limit 2..8, 0..limit-1 ids delivered in order, then 1..2 NEW_CONNECTION_ID frames with seq in {next, next+1, next+limit, next+4095..next+4098, 2^25, boundary set, uniform 62-bit} and retire_prior_to in {0, seq, seq-1, seq-limit, seq-limit-1, random}; (b) ArcLocalCids: set_limit(n) for n in {0,1,2,3,8,63,64,65,2^14,2^18,2^30,2^62-1}, then 1..3 RETIRE_CONNECTION_ID for issued / unissued / boundary numbers; worker process with RLIMIT_AS and a 10 s cap; non-trivial = an id accepted / ids issued; distinct by transcript hash");
+    sink.finish(&o.stats, "C04c: (a) ArcRemoteCids with limit 2..8, 0..limit-1 ids delivered in order, then 1..2 NEW_CONNECTION_ID frames with seq in {next, next+1, next+limit, next+4095..next+4098, next+2..next+4001, 2^25, boundary set, uniform 62-bit} and retire_prior_to in {0, seq, seq-1, seq-limit+1, seq-limit, seq-limit-1, random} (classified by the number of active ids they would leave, not by seq - retire_prior_to); (b) ArcLocalCids: set_limit(n) for n in {0,1,2,3,8,63,64,65,2^14,2^18,2^30,2^62-1}, then 1..3 RETIRE_CONNECTION_ID for issued / unissued / boundary numbers; worker process with RLIMIT_AS and a 10 s cap; non-trivial = an id accepted / ids issued; distinct by transcript hash");
 }
 
 pub const RUNS: &[(&str, fn(&Opts))] = &[("C04a", run_ack), ("C04p", run_pn), ("C04c", run_cid), ("C04w", worker)];
